@@ -257,6 +257,20 @@ Proof.
 Qed.
 Print Assumptions director_is_least_eigen_partial.
 
+(* the harness evaluates the residuals with every intermediate fraction reduced; same values *)
+Theorem order_residuals_reduced_evaluation : forall least t s v ds s2,
+  Forall2 Qeq (eigvec_residuals_r least t s v) (eigvec_residuals least t s v) /\
+  Forall2 Qeq (s2_residuals_r ds s2) (s2_residuals ds s2).
+Proof. intros. split; [exact (eigvec_residuals_r_eq least t s v)|exact (s2_residuals_r_eq ds s2)]. Qed.
+Print Assumptions order_residuals_reduced_evaluation.
+
+(* the order in which the model evaluates the inertia tensor gives the documented sum *)
+Theorem inertia_tensor_documented_form : forall a b cs,
+  inertia_of a b cs ==
+  qsum (map (fun md => fst md * (dot3' (snd md) * delta a b - comp a (snd md) * comp b (snd md))) cs).
+Proof. exact inertia_documented_form. Qed.
+Print Assumptions inertia_tensor_documented_form.
+
 Theorem order_parameter_nonnegative : forall a b c, a <= b -> b <= c -> a + b + c == 0 -> 0 <= c.
 Proof. exact traceless_top_nonneg. Qed.
 Print Assumptions order_parameter_nonnegative.
